@@ -4,6 +4,7 @@ CONSTANTS
   Dbs = {"d1", "d2"}
   Tbls = {"t1", "t2"}
   Privs = {"SELECT", "INSERT", "UPDATE", "DELETE", "CREATE", "DROP", "ALTER", "INDEX", "EXECUTE", "CREATE USER", "GRANT OPTION", "SUPER"}
+  DynPrivs = {"REPLICATION_SLAVE_ADMIN", "CLONE_ADMIN"}
   MaxSet = 2
   WithAll = TRUE
   MaxStep = 100
